@@ -20,6 +20,7 @@ mod rng;
 mod sched;
 mod selftest;
 mod signers;
+mod simclock;
 mod variant;
 mod world;
 
@@ -117,6 +118,23 @@ fn main() {
                 println!("candidate {} zero slots (harness order) {:?} exponents of 1331^(4096/2n) {:?}", i, zeros, exps);
             }
             0
+        }
+        "clock-test" => {
+            // does the harness's clock_gettime stand in front of std's Instant?
+            let t0 = std::time::Instant::now();
+            let quiet = t0.elapsed().as_secs_f64();
+            let (dt, reads, jumps) = {
+                let _g = simclock::enable(42);
+                let a = std::time::Instant::now();
+                let mut last = a;
+                for _ in 0..20 {
+                    last = std::time::Instant::now();
+                }
+                (last.duration_since(a).as_secs_f64(), simclock::counters().0, simclock::counters().1)
+            };
+            let after = std::time::Instant::now().duration_since(t0).as_secs_f64();
+            println!("without faults: {:.6}s; with faults on: {:.0}s apparent over 21 reads ({} reads seen, {} jumps); faults off again, 1 more read: {:.0}s since start", quiet, dt, reads, jumps, after);
+            if dt > 60.0 { 0 } else { 1 }
         }
         "mine-norm" => {
             // mine-norm <n> <scan>: seeds whose accepted candidate sits at the norm bound of key generation
